@@ -21,7 +21,7 @@ ID = "C01"
 LEVEL = "exploration"
 SHARDS = {"quick": 4, "thorough": 16}
 RULE = (
-    "Hypothesis draws histories of 1..12 array checks in one context: spec = 0..6 constructed legal "
+    "Hypothesis draws histories of 1..12 array checks in one context (2 of 5 histories focus on one variadic name: every step is [axis] *v|*#v [axis]): spec = 0..6 constructed legal "
     "tokens (<=1 multi-axis token at any position, all modifier orders, doc= prefixes, symbolic ASTs, "
     "{arg} holes when run inside a jaxtyped(typechecker=None) call), category/array type/dtype with "
     "~12% mismatches, shape derived from spec+model context then mutated w.p. 0.45 (ranks 0..7, sizes "
@@ -178,8 +178,22 @@ CONTEXT_ONLY_SPECS = [
 ]
 
 
+def draw_focus_step(data, hist: History):
+    """Variadic-focused histories: every step is [axis] (*v | *#v) [axis] over ONE variadic name, so that sequences of three
+    and more uses with all flag combinations (b,p,p / b,b,p / p,b,b ...) and rank changes are common."""
+    T = dl.Token
+    pre = [T(data.draw(st.sampled_from(["", "#"])), "name", data.draw(st.sampled_from(["a", "b"])))] if data.draw(st.integers(0, 2)) == 0 else []
+    suf = [T(data.draw(st.sampled_from(["", "#"])), "name", data.draw(st.sampled_from(["a", "b"])))] if data.draw(st.integers(0, 2)) == 0 else []
+    var = T(data.draw(st.sampled_from(["*#", "*", "#*", "*"])), "name", hist.focus_name)
+    toks = pre + [var] + suf
+    shape, _ = data.draw(gd.shape_for(gd.meanings_of(toks), hist.m, mutate_prob=0.25), label="shape")
+    return {"tokens": [tok_json(t) for t in toks], "cat": "Shaped", "at": "np", "vk": "np", "dtype": "float32", "shape": list(shape)}
+
+
 def draw_step(data, hist: History, *, jax_ok=False, allow_q_prob=0.1):
     m = hist.m
+    if getattr(hist, "focus_name", None) and data.draw(st.integers(0, 4)) != 0:
+        return draw_focus_step(data, hist)
     if gd.chance(data.draw, 0.1):
         toks = data.draw(st.sampled_from(CONTEXT_ONLY_SPECS), label="context-only spec")
         shape = data.draw(st.sampled_from([(4,), (3,), (2,), (4, 3), (3, 3), (1,)]))
@@ -214,6 +228,7 @@ def run(ctx):
     def histories(data):
         use_args = data.draw(st.integers(0, 3)) == 0
         hist = History(ctx, use_args)
+        hist.focus_name = data.draw(st.sampled_from([None, None, "v", None, "a"]))  # 2 of 5 histories are variadic-focused
 
         def body():
             n = data.draw(st.integers(1, 12), label="steps")
